@@ -329,12 +329,15 @@ def coq_term(case, ob):
     defs = "None"
     if api and api.get("labeldefs") is not None:
         defs = "(Some " + C.clist(api["labeldefs"], lambda x: f"({C.z(x[0])}, {C.z(x[1])}, {C.cstr(x[2])})") + ")"
+    clidefs = "None"
+    if case.get("cli") and case.get("cli_defines"):
+        clidefs = "(Some " + C.clist(list(case["cli_defines"].items()), lambda kv: C.cpair(C.cstr(kv[0]), C.cstr(kv[1]))) + ")"
     fmt = "FIps" if case.get("format", "ips") == "ips" else "FSfc"
     term = (f"{{| ec_files := {files_term(case)}; ec_config := {config_term(case)}; "
             f"ec_name := {C.cstr(case.get('fname', FNAME))}; ec_src := {C.cstr(case['src'])}; ec_impl := {impl}; "
             f"ec_format := {fmt}; ec_copier := {C.cbool(bool(case.get('copier')))}; "
             f"ec_api := {front_term(api)}; ec_cli := {front_term(ob.get('cli'))}; ec_symfile := {sym}; "
-            f"ec_labeldefs := {defs} |}}")
+            f"ec_cli_defines := {clidefs}; ec_labeldefs := {defs} |}}")
     return f"({term}, {spec_term(case, ob)}, {C.cbool(case.get('corr', True))})"
 
 
